@@ -6,7 +6,7 @@ namespace Driver.C12
 
 /-! Line protocol of C12 (model side / monitor side).
 
-`mon <mode64> <n> {kind gp size read write lo width follower runLen rmChecked memAlt}*n <dbFlagsR> <dbFlagsW> <featChecked> <dbExt> <featImplies a,b,a,b…>
+`mon <mode64> <n> {kind gp size read write lo width rwidth follower runLen rmChecked memAlt}*n <dbFlagsR> <dbFlagsW> <featChecked> <dbExt> <featImplies a,b,a,b…>
      <m> {flags physId rmSize clc rmask wmask emask}*m <implFlagsR> <implFlagsW> <implFeat>`      → `good` | `BAD <clause>`
 (lists are comma separated, `-` = empty; masks and flags in hex)
 
@@ -20,9 +20,9 @@ def bool? (s : String) : Option Bool := match s with | "0" => some false | "1" =
 
 def parseDbOps : Nat → List String → Option (List DbOp × List String)
   | 0, rest => some ([], rest)
-  | n + 1, k :: gp :: sz :: rd :: wr :: lo :: wd :: fo :: rl :: rc :: ma :: rest => do
+  | n + 1, k :: gp :: sz :: rd :: wr :: lo :: wd :: rwd :: fo :: rl :: rc :: ma :: rest => do
     let d : DbOp := { kind := ← k.toNat?, gp := ← bool? gp, size := ← sz.toNat?, read := ← bool? rd, write := ← bool? wr,
-                      lo := ← lo.toNat?, width := ← wd.toNat?, follower := ← fo.toNat?, runLen := ← rl.toNat?,
+                      lo := ← lo.toNat?, width := ← wd.toNat?, rwidth := ← rwd.toNat?, follower := ← fo.toNat?, runLen := ← rl.toNat?,
                       rmChecked := ← bool? rc, memAlt := ← natList? ma }
     let (ds, rest') ← parseDbOps n rest
     some (d :: ds, rest')
